@@ -796,6 +796,8 @@ def execute(cfg, light=False, seed=None):
         draws.install()
         try:
             space, opt, fn = build(cfg, mon.fwrap, pre_space, opt_pre)
+            for k_, v_ in cfg.get('hp_post') or []:
+                setattr(opt, k_, v_)            # a build / re-assign / run sequence: hyperparameters re-assigned through their public setters
             mon.space, mon.opt, mon.fn = space, opt, fn
             if cfg.get('prelude'):
                 try:
@@ -1169,6 +1171,11 @@ def check_gp_records(mon):
     bts = getattr(hist, 'best_tree', None)
     if not isinstance(bts, list):
         mon.v('C12', 'no-best-tree-series', 'GP history has no best_tree series', None, 'one per iteration')
+        return
+    if len(bts) != len(hist.best_agent) or len(bts) != mon.cfg['n_iterations']:
+        mon.v('C12', 'best-tree-series-and-best-agent-series-differ-in-length', 'after %d iterations the history holds %d best trees and %d best agents: '
+              'record t no longer pairs the best tree of iteration t with the best position of iteration t'
+              % (mon.cfg['n_iterations'], len(bts), len(hist.best_agent)), (len(bts), len(hist.best_agent)), mon.cfg['n_iterations'])
         return
     for t, (bt, ba) in enumerate(zip(bts, hist.best_agent)):
         if not (float(ba[1]) < FLOAT_MAX):
